@@ -484,6 +484,8 @@ def call_resolve(frame, actor, inode, ipath):
             return "ERR nomain"
         if "Unresolved actor" in msg:
             return "ERR noactor"
+        if "Incomplete relative" in msg:
+            return "ERR incomplete"
         return "ERR resolve"
     except IndexError:
         return "ERR index"
@@ -602,8 +604,8 @@ class CHECK(core.Check):
     PARTIAL = ["theorems speak about path segments: nameToPath (camel case actor name -> segments), str.split and the "
                "REO_* regular expressions are transcribed and tied to the code by the correspondence only; explicit "
                "entity names written inline in a relative path token (framer.NAME.x) count as literal segments; "
-               "clone naming, Store.create share/node conflicts and the IndexError of resolvePath on paths ending in "
-               "`framer` / `frame` / `actor` are outside the property (the model reproduces the IndexError)"]
+               "clone naming and Store.create share/node conflicts are outside the property; incomplete relative "
+               "paths (`framer`, `framer.X.frame`, …) give the ResolveError of fix D68, modelled as `incomplete`"]
     TECHNIQUE = "Lean 4 theorems (equivariance of the transcribed resolvePath / parseIndirect under segment renamings) + differential and metamorphic correspondence"
     LEVEL_TEXT = ("Full proof on the model: C13_resolve_equivariant (for every context - frame/over chain, framer, chain of "
                   "main framers, actor -, act inode, path and every keyword-respecting renaming f of segments: resolvePath of "
